@@ -35,6 +35,14 @@ Definition used_here (cfg : config) (w : world) (a : action) (i : iobs) : list (
 Definition ghost_step (cfg : config) (g : ghost) (w : world) (a : action) (i : iobs) : ghost :=
   mkGhost (g_mails g ++ io_mails i) (g_smss g ++ io_smss i) (g_used g ++ used_here cfg w a i).
 
+Definition resync (w' : world) (a : action) (i : iobs) : world :=
+  let b := action_browser a in
+  let w1 := w' <| w_st := mkStorage (map (fun u => (u_pid u, u)) (io_users i)) (io_rm i) |> in
+  match a with
+  | AReq _ => w1 <| w_sess := jar_set b (io_sess i) (w_sess w1) |> <| w_cook := jar_set b (io_cook i) (w_cook w1) |>
+  | _ => w1
+  end.
+
 Section Hist.
 Variable cfg : config.
 Variable pred : pred_t.
@@ -47,7 +55,12 @@ Fixpoint check_steps (n : Z) (g : ghost) (w : world) (l : list (action * oracle 
       let viol := map (fun c => (n, c)) (pred cfg g w a orc w' i) in
       match compare_step a w' o i with
       | [] => viol ++ check_steps (n + 1) (ghost_step cfg g w a i) w' r
-      | cs => viol ++ map (fun c => (n, c)) cs
+      | cs =>
+          (* the correspondence broke here: report it, then go on judging the implementation from ITS
+             observed state (storage and the requesting browser's jars), so that a failing input that
+             only shows up later in the history is still found *)
+          viol ++ map (fun c => (n, c)) cs ++
+          check_steps (n + 1) (ghost_step cfg g w a i) (resync w' a i) r
       end
   end.
 
